@@ -1,6 +1,7 @@
 // Facade between the simulator (no /repo includes) and the client TUs (the only
 // files that include <boost/mqtt5/...>). Everything crosses as generic MQTT data.
 #pragma once
+#include <boost/asio/cancellation_signal.hpp>
 #include <boost/asio/io_context.hpp>
 #include <boost/system/error_code.hpp>
 
@@ -69,8 +70,11 @@ struct IClient {
     virtual int new_slot() = 0;
 };
 
+// cancellation signals must outlive the operations bound to their slots: they are owned by the run, not the client
+using SignalPool = std::vector<std::unique_ptr<boost::asio::cancellation_signal>>;
+
 // variant 0 = A (sim::stream), 1 = B (basic_stream_socket specialisation)
-std::unique_ptr<IClient> make_client_A(boost::asio::io_context& ioc, ClientObserver* obs);
-std::unique_ptr<IClient> make_client_B(boost::asio::io_context& ioc, ClientObserver* obs);
+std::unique_ptr<IClient> make_client_A(boost::asio::io_context& ioc, ClientObserver* obs, SignalPool* pool);
+std::unique_ptr<IClient> make_client_B(boost::asio::io_context& ioc, ClientObserver* obs, SignalPool* pool);
 
 } // namespace app
